@@ -341,6 +341,10 @@ pub enum MapOp {
     EmptySubsMasterIsSub { a: usize },
     Master(Op),
     Sub { a: usize, op: Op },
+    /// third level (map -> map -> tree): the innermost sub-proof `b` of the nested sub-proof `a`
+    InnerSubForeign { a: usize, b: usize },
+    InnerSwapSubs { a: usize, b: usize, c: usize },
+    InnerSub { a: usize, b: usize, op: Op },
 }
 
 impl MapOp {
@@ -370,6 +374,9 @@ impl MapOp {
             MapOp::EmptySubsMasterIsSub { .. } => "empty_sub_proofs_master_is_a_sub_proof".into(),
             MapOp::Master(op) => format!("master:{}", op.class()),
             MapOp::Sub { op, .. } => format!("sub:{}", op.class()),
+            MapOp::InnerSubForeign { .. } => "level3:innermost_sub_proof_detached(foreign_tree)".into(),
+            MapOp::InnerSwapSubs { .. } => "level3:innermost_sub_proofs_swapped".into(),
+            MapOp::InnerSub { op, .. } => format!("level3:innermost:{}", op.class()),
         }
     }
 }
@@ -499,6 +506,37 @@ pub fn apply(m: &MapProofM, op: &MapOp, w: &MapWorld) -> Option<MapProofM> {
         MapOp::Master(op) => {
             o.master_proof = mk::apply(&m.master_proof, op, &ctx.master)?;
         }
+        MapOp::InnerSubForeign { a, b } => {
+            let sp = o.sub_proofs.get_mut(*a)?;
+            let inner = sp.1.sub_proofs.get_mut(*b)?;
+            if inner.1 == w.foreign_sub {
+                return None;
+            }
+            inner.1 = w.foreign_sub.clone();
+        }
+        MapOp::InnerSwapSubs { a, b, c } => {
+            let sp = o.sub_proofs.get_mut(*a)?;
+            if *b >= sp.1.sub_proofs.len() || *c >= sp.1.sub_proofs.len() || b == c {
+                return None;
+            }
+            let pb = sp.1.sub_proofs[*b].1.clone();
+            let pc = sp.1.sub_proofs[*c].1.clone();
+            if pb == pc {
+                return None;
+            }
+            sp.1.sub_proofs[*b].1 = pc;
+            sp.1.sub_proofs[*c].1 = pb;
+        }
+        MapOp::InnerSub { a, b, op } => {
+            let (s, e) = key_of(*a)?;
+            let (_, child) = ctx.find((s, e))?;
+            let RefNode::Map(mc) = child else { return None };
+            let sp = o.sub_proofs.get_mut(*a)?;
+            let inner = sp.1.sub_proofs.get_mut(*b)?;
+            let (_, leaf_ctx) = mc.find(inner.0.pair())?;
+            let RefNode::Tree(t) = leaf_ctx else { return None };
+            inner.1.master_proof = mk::apply(&inner.1.master_proof, op, t)?;
+        }
         MapOp::Sub { a, op } => {
             let (s, e) = key_of(*a)?;
             let (_, child) = ctx.find((s, e))?;
@@ -558,6 +596,23 @@ pub fn enumerate_ops(m: &MapProofM, w: &MapWorld, tree_ops_cap: usize, rng: &mut
             };
             for op in cap(mk::enumerate_ops(&m.sub_proofs[a].1.master_proof, t, t.n() <= 6, rng), rng) {
                 ops.push(MapOp::Sub { a, op });
+            }
+        }
+    }
+    // third level
+    for a in 0..s {
+        let inner_n = m.sub_proofs[a].1.sub_proofs.len();
+        for b in 0..inner_n {
+            ops.push(MapOp::InnerSubForeign { a, b });
+            for c in b + 1..inner_n {
+                ops.push(MapOp::InnerSwapSubs { a, b, c });
+            }
+            if let Some((_, RefNode::Map(mc))) = w.top.find(m.sub_proofs[a].0.pair()) {
+                if let Some((_, RefNode::Tree(t))) = mc.find(m.sub_proofs[a].1.sub_proofs[b].0.pair()) {
+                    for op in cap(mk::enumerate_ops(&m.sub_proofs[a].1.sub_proofs[b].1.master_proof, t, t.n() <= 6, rng), rng) {
+                        ops.push(MapOp::InnerSub { a, b, op });
+                    }
+                }
             }
         }
     }
